@@ -58,11 +58,23 @@ def handle (op : String) (arg : Sexp) : String :=
       let wantL := evalQueryP [] (bindQuery ps q) d
       if wantP != wantL then "bad:model-bind"
       else
+        let same := match implP, implL with
+          | .list [.atom "ok", .list rp], .list [.atom "ok", .list rl] =>
+            (match rp.mapM parseRow, rl.mapM parseRow with
+             | some a, some b => DfModel.Drv.C01.judge mode b a == some true
+             | _, _ => false)
+          | a, b => a.toStr == b.toStr
         match judgeOne mode wantP implP, judgeOne mode wantL implL with
         | .badop, _ => "bad-op"
         | _, .badop => "bad-op"
-        | .bad w, _ => "bad:param " ++ w
-        | _, .bad w => "bad:literal " ++ w
+        | .bad w, vl =>
+          -- the literal statement deviates from the reference in exactly the same way: that is a
+          -- matter of C01 (reference vs engine), not of parameter binding
+          if same then "unsupported" else
+          match vl with
+          | .bad _ => "bad:param-and-literal " ++ w
+          | _ => "bad:param " ++ w
+        | _, .bad w => if same then "unsupported" else "bad:literal " ++ w
         | .unsupported, _ => "unsupported"
         | _, .unsupported => "unsupported"
         | .ok, .ok => "ok"
